@@ -14,6 +14,8 @@
 (*                              return None and KEEP the stale entry);     *)
 (*                              not cached -> load and insert              *)
 (*   Database::reset():  zones.write() { names.write() { clear }; clear }  *)
+(*   Database::available(): names.write(): refresh the index if ITS ttl    *)
+(*                              expired, return the index                  *)
 (*   environment:        ReplaceFile / RemoveFile / AddFile / Tick         *)
 (*                                                                         *)
 (* A file is a version number > 0 (its content) and an mtime; replacing a  *)
@@ -152,6 +154,17 @@ ResetZones(t) ==
   /\ zlW' = None /\ pc' = [pc EXCEPT ![t] = "idle"]
   /\ UNCHANGED <<disk, names, namesExp, clock, nextVer, zlR, nlW, nlR, arg, ret, info, ops, seen, how>>
 
+\* ---- Database::available: one critical section under the names write lock -------------------
+\* the result is the listing after the section (names'); `listing` as in NamesWWith
+AvailWith(t, listing) ==
+  /\ pc[t] = "idle" /\ ops < MaxOps /\ CanWrite(nlW, nlR)
+  /\ LET refresh == Expired(namesExp) IN
+     /\ names' = IF refresh THEN listing ELSE names
+     /\ namesExp' = IF refresh THEN clock + TTL ELSE namesExp
+  /\ ops' = ops + 1
+  /\ UNCHANGED <<disk, cache, clock, nextVer, zlW, zlR, nlW, nlR, pc, arg, ret, info, seen, how>>
+Avail(t) == AvailWith(t, OnDisk)
+
 \* ---- environment ---------------------------------------------------------------------------
 Note(n, v) == [t \in Thread |-> IF pc[t] \notin {"idle"} /\ arg[t] = n THEN seen[t] \cup {v} ELSE seen[t]]
 ReplaceFile(n) ==
@@ -175,7 +188,7 @@ Tick ==
 Next ==
   \/ \E t \in Thread : \/ \E n \in Name : Start(t, n)
                        \/ Fast(t) \/ NamesR(t) \/ NamesW(t) \/ Slow(t) \/ Finish(t)
-                       \/ ResetStart(t) \/ ResetNames(t) \/ ResetZones(t)
+                       \/ ResetStart(t) \/ ResetNames(t) \/ ResetZones(t) \/ Avail(t)
   \/ \E n \in Name : ReplaceFile(n) \/ RemoveFile(n) \/ AddFile(n)
   \/ Tick
 
